@@ -51,6 +51,7 @@ FS_QUICK = [
     FSCfg("TR", "less", "greater", "s4", "basic", std="c++20"),  # operator<=>, erase_if
     FSCfg("int", "coarse", "less", "v", "amc"),  # raw arithmetic keys, equivalence coarser than equality
     FSCfg("TR", "fine", "less", "v", "basic"),  # comparator finer than the elements' operator==
+    FSCfg("NTR", "less", "greater", "f12"),  # a small bounded underlying vector: merges run into its capacity (out_of_range in the middle of a merge)
 ]
 FS_THOROUGH = [
     FSCfg("TR", "coarse", "less", "s2", "basic"),
